@@ -453,12 +453,14 @@ func asSuffixErr(err error) *pointerSuffixError {
 //@ requires d != nil && 0 <= d.prevEnd && d.prevEnd <= len(d.buf)
 //@ modifies d.Names.unquotedNames, d.Names.unquotedNames[:cap(d.Names.unquotedNames)], d.Names.offsets[:], d.buf[:]
 //@ ensures iff: (result == nil) == (d.Tokens.needDelim(next) == delim)
+//@ ensures names: nsLocalOK(d.Names.offsets, d.Names.unquotedNames) && nsRemoteOK(d.Names.offsets, len(d.buf)) && distinctArrays(d.Names.unquotedNames, d.buf) && len(d.Names.offsets) == old(len(d.Names.offsets))
 
 //@ func (*decoderState).checkDelimBeforeIOError
 //@ trusted NOT PROVED: error-message helper around checkDelim; frame assumed
 //@ requires d != nil && 0 <= d.prevEnd && d.prevEnd <= len(d.buf)
 //@ modifies d.Names.unquotedNames, d.Names.unquotedNames[:cap(d.Names.unquotedNames)], d.Names.offsets[:], d.buf[:]
 //@ ensures keeps-error: err != nil ==> result != nil
+//@ ensures names: nsLocalOK(d.Names.offsets, d.Names.unquotedNames) && nsRemoteOK(d.Names.offsets, len(d.buf)) && distinctArrays(d.Names.unquotedNames, d.buf) && len(d.Names.offsets) == old(len(d.Names.offsets))
 
 // ReadToken (safety and commit protocol of the token path). Under the
 // decoder's representation invariant: every index is in bounds on every path
@@ -484,3 +486,46 @@ func asSuffixErr(err error) *pointerSuffixError {
 //@ ensures ok-step: result1 == nil ==> len(d.Tokens.Stack) == old(len(d.Tokens.Stack))+1 || len(d.Tokens.Stack) == old(len(d.Tokens.Stack))-1 || (len(d.Tokens.Stack) == old(len(d.Tokens.Stack)) && d.Tokens.Last == old(d.Tokens.Last)+1)
 //@ ensures tags-cleared: result1 == nil && len(d.Tokens.Stack) == old(len(d.Tokens.Stack))+1 ==> !d.Flags.Has(jsonflags.TagFlags)
 //@ ensures window-end: result1 == nil ==> d.prevEnd <= len(d.buf) && d.prevStart <= d.prevEnd
+
+// PeekKind: after the call the peek cache is consistent - either an error is
+// cached (peekPos == -1) or peekPos is the in-bounds position of the next token -
+// and the decoder invariant still holds.
+//
+//@ func (*decoderState).PeekKind
+//@ split
+//@ property C05 C01 C20
+//@ requires d != nil && dbInv(d.prevStart, d.prevEnd, len(d.buf), d.baseOffset) && d.baseOffset+int64(len(d.buf)) < 1<<61 && smInv(d.Tokens.Stack, d.Tokens.Last)
+//@ requires peek: d.peekPos <= 0 || (d.prevEnd <= d.peekPos && d.peekPos < len(d.buf) && d.peekErr == nil)
+//@ requires names: nsLocalOK(d.Names.offsets, d.Names.unquotedNames) && nsRemoteOK(d.Names.offsets, len(d.buf)) && distinctArrays(d.Names.unquotedNames, d.buf) && nsWindowQuoted(d.Names.offsets, d.buf, d.prevStart)
+//@ modifies everything
+//@ ensures inv: dbInv(d.prevStart, d.prevEnd, len(d.buf), d.baseOffset) && d.baseOffset+int64(len(d.buf)) < 1<<61
+//@ ensures peek: (d.peekPos == -1 && d.peekErr != nil) || (d.peekErr == nil && d.prevEnd <= d.peekPos && d.peekPos < len(d.buf))
+//@ ensures names: nsLocalOK(d.Names.offsets, d.Names.unquotedNames) && nsRemoteOK(d.Names.offsets, len(d.buf)) && distinctArrays(d.Names.unquotedNames, d.buf)
+//@ ensures names-window: d.peekErr == nil ==> nsWindowQuoted(d.Names.offsets, d.buf, d.prevStart)
+//@ ensures tokens: d.Tokens.Last == old(d.Tokens.Last) && len(d.Tokens.Stack) == old(len(d.Tokens.Stack))
+
+// checkEOF: thin (safety) contract.
+//
+//@ func (*decoderState).checkEOF
+//@ property C05 C01 C20
+//@ requires d != nil && dbInv(d.prevStart, d.prevEnd, len(d.buf), d.baseOffset) && d.prevStart <= pos && pos <= len(d.buf) && d.baseOffset+int64(len(d.buf)) < 1<<61
+//@ requires names-local: nsLocalOK(d.Names.offsets, d.Names.unquotedNames)
+//@ requires names-remote: nsRemoteOK(d.Names.offsets, len(d.buf))
+//@ requires names-distinct: distinctArrays(d.Names.unquotedNames, d.buf)
+//@ requires names-window: nsWindowQuoted(d.Names.offsets, d.buf, d.prevStart)
+//@ modifies everything
+//@ ensures tokens: d.Tokens.Last == old(d.Tokens.Last) && len(d.Tokens.Stack) == old(len(d.Tokens.Stack)) && d.peekPos == old(d.peekPos) && d.peekErr == old(d.peekErr)
+
+// CheckNextValue validates the next value without consuming it; whatever the
+// outcome, the cached peek result is cleared before it returns (a transient
+// error or a position that a later fetch would invalidate must not be kept).
+//
+//@ func (*decoderState).CheckNextValue
+//@ split
+//@ property C05 C20
+//@ requires d != nil && dbInv(d.prevStart, d.prevEnd, len(d.buf), d.baseOffset) && d.baseOffset+int64(len(d.buf)) < 1<<61 && smInv(d.Tokens.Stack, d.Tokens.Last)
+//@ requires peek: d.peekPos <= 0 || (d.prevEnd <= d.peekPos && d.peekPos < len(d.buf) && d.peekErr == nil)
+//@ requires names: nsLocalOK(d.Names.offsets, d.Names.unquotedNames) && nsRemoteOK(d.Names.offsets, len(d.buf)) && distinctArrays(d.Names.unquotedNames, d.buf) && nsWindowQuoted(d.Names.offsets, d.buf, d.prevStart)
+//@ modifies everything
+//@ ensures peek-cleared: d.peekPos == 0 && d.peekErr == nil
+//@ ensures tokens: d.Tokens.Last == old(d.Tokens.Last) && len(d.Tokens.Stack) == old(len(d.Tokens.Stack))
